@@ -14,7 +14,7 @@ mkdir -p /tmp/aside_$name && mv tests/seeded_demo.rs /tmp/aside_$name/
 cargo test --workspace --no-fail-fast --offline >> $log 2>&1; s1=$?
 mv /tmp/aside_$name/seeded_demo.rs tests/
 # 2. demo with the change (demos that use the cfg hooks need the guard on)
-if grep -q verif_ tests/seeded_demo.rs; then export RUSTFLAGS="--cfg nlnetlabs_routecore_verif"; fi
+if grep -q "verif_\|nlnetlabs_routecore_verif" tests/seeded_demo.rs; then export RUSTFLAGS="--cfg nlnetlabs_routecore_verif"; fi
 cargo test --offline $F --test seeded_demo >> $log 2>&1; s2=$?
 # 3. demo without the change
 git stash -q -- src
